@@ -264,7 +264,7 @@ impl<L: Language, N: Analysis<L>> EGraph<L, N> {
                 let (a, b, proof) = self.pc_congruence(&pc1, &pc2);
 
                 // or is it the opposite direction? (flip a with b)
-                let perm = a.m.compose(&b.m.inverse());
+                let perm = b.m.compose(&a.m.inverse());
 
                 let proven_perm = ProvenPerm {
                     elem: perm,
